@@ -317,6 +317,10 @@ func (a *Authority) authorizeRenew(ctx context.Context, cert *x509.Certificate) 
 			return nil, errs.Unauthorized("authority.authorizeRenew: provisioner not found", opts...)
 		}
 	}
+	// A provisioner that failed to initialize cannot authorize anything.
+	if _, ok := p.(provisioner.Uninitialized); ok {
+		return nil, errs.Unauthorized("authority.authorizeRenew: provisioner %q is disabled due to an initialization error", p.GetName())
+	}
 	if err := p.AuthorizeRenew(ctx, cert); err != nil {
 		return nil, errs.Wrap(http.StatusInternalServerError, err, "authority.authorizeRenew", opts...)
 	}
